@@ -20,7 +20,8 @@ STEMS = ['x', 'y', '', 'X']
 EXTS = ['.pyc', '.py', '.pyo', '.pyc.bak', 'pyc', '.PYC', '', '.pyd']
 PLACES = ['/r', '/r/sub', '/r/__pycache__', '/r/.git', '/r/my-dir', '/r/sub/deep']
 PATHSETS = [['/r'], ['/r', '/r'], ['/r', '/r/sub'], ['/r/sub', '/r']]
-FLAGS = [[], ['-k'], ['--usecompiled'], ['-k', '--usecompiled']]
+FLAGS = [[], ['-k'], ['--usecompiled'], ['-k', '--usecompiled'], ['--ignore_dir', 'build'], ['--ignore_dir', 'my-dir']]
+DEFAULT_IGNORE = {'.git', '.svn', 'CVS', '{arch}', '.arch-ids', '_darcs'}       # documented defaults of --ignore_dir
 
 
 def name(si, ei):
@@ -28,9 +29,13 @@ def name(si, ei):
     return n or 'noname'
 
 
-def build(files, link, rev):
+def build(files, link, rev, pydir=False):
     t = FO.Tree()
     t.add_dir('/r')
+    if pydir:            # a *directory* called x.py next to the files: it is no source file
+        t.add_dir('/r/x.py')
+        t.add_dir('/r/CVS')
+        t.add_file('/r/CVS/old.pyc')
     for d in ('/r/sub', '/r/__pycache__', '/r/.git', '/r/my-dir', '/r/sub/deep'):
         t.add_dir(d, link=(link == 1 and d == '/r/__pycache__') or (link == 2 and d == '/r/.git') or (link == 3 and d == '/r/sub'))
     t.add_file('/r/__pycache__/x.cpython-312.pyc')
@@ -81,18 +86,19 @@ def expected(tree, roots, ignore):
     return must, may
 
 
-def stale(a_s, a_e, a_p, b_s, b_e, b_p, c_s, c_e, link, rev, flags, paths):
+def stale(a_s, a_e, a_p, b_s, b_e, b_p, c_s, c_e, link, rev, flags, paths, pydir=False):
     global LAST
     a = (pick(PLACES, a_p), name(pick(range(4), a_s), pick(range(8), a_e)))
     b = (pick(PLACES, b_p), name(pick(range(4), b_s), pick(range(8), b_e)))
     c = ('/r', name(pick(range(4), c_s), pick(range(8), c_e)))
     link = ci(link, 0, 3)
     rev = cb(rev)
+    pydir = cb(pydir)
     flags = pick(FLAGS, flags)
     paths = pick(PATHSETS, paths)
     with untraced():
-        tree = build([a, b, c], link, rev)
-        ref = build([a, b, c], link, rev)
+        tree = build([a, b, c], link, rev, pydir)
+        ref = build([a, b, c], link, rev, pydir)
         o = RW.options(flags)
         o.test_path = [(p, '') for p in paths]
         o.prefix = [(p + '/', '') for p in paths]
@@ -104,8 +110,11 @@ def stale(a_s, a_e, a_p, b_s, b_e, b_p, c_s, c_e, link, rev, flags, paths):
     finally:
         F.os = saved
     with untraced():
-        must, may = expected(ref, paths, o.ignore_dir)
-        if flags:
+        ignore = set(DEFAULT_IGNORE)
+        if flags[:1] == ['--ignore_dir']:
+            ignore.add(flags[1])
+        must, may = expected(ref, paths, ignore)
+        if flags and flags[0] != '--ignore_dir':
             must, may = set(), set()
         unl = [c_[1] for c_ in fos.calls if c_[0] == 'unlink']
         other = [c_ for c_ in fos.calls if c_[0] != 'unlink']
@@ -116,7 +125,7 @@ def stale(a_s, a_e, a_p, b_s, b_e, b_p, c_s, c_e, link, rev, flags, paths):
             why = 'file unlinked twice: %r' % (unl,)
         elif not (must <= set(unl) <= must | may):
             why = 'unlinked %r, orphans are %r (optional %r); flags %r' % (sorted(unl), sorted(must), sorted(may), flags)
-    LAST = (a, b, c, link, rev, tuple(flags), tuple(paths), why, tuple(sorted(unl)))
+    LAST = (a, b, c, link, rev, tuple(flags), tuple(paths), why, tuple(sorted(unl)), pydir)
     return why is None
 
 
@@ -126,17 +135,17 @@ def stale_reach(*a):
 
 
 _P = [('a_s', 'int'), ('a_e', 'int'), ('a_p', 'int'), ('b_s', 'int'), ('b_e', 'int'), ('b_p', 'int'), ('c_s', 'int'), ('c_e', 'int'), ('link', 'int'), ('rev', 'bool'),
-      ('flags', 'int'), ('paths', 'int')]
+      ('flags', 'int'), ('paths', 'int'), ('pydir', 'bool')]
 _C = ', '.join(n for n, _ in _P)
 _B = ('0 <= a_s < 4 and 0 <= a_e < 8 and 0 <= a_p < 6 and 0 <= b_s < 4 and 0 <= b_e < 8 and 0 <= b_p < 6 and 0 <= c_s < 4 and 0 <= c_e < 8 and 0 <= link <= 3 '
-      'and 0 <= flags < 4 and 0 <= paths < 4')
+      'and 0 <= flags < 6 and 0 <= paths < 4')
 # quick: A anywhere (all names), B beside it in /r or /r/sub with the compiled/source extensions, C fixed
-_Q = _B + ' and b_s <= 1 and b_e <= 2 and b_p <= 1 and c_s == 0 and c_e == 1 and (flags == 0 or (a_s == 0 and b_s == 0)) and (paths == 0 or (a_s <= 1 and a_e <= 1 and b_e <= 1))  and (link == 0 or (a_e == 0 and b_e == 0 and a_s == 0))'
+_Q = _B + ' and (not pydir or (flags == 0 and paths == 0 and link == 0 and a_p == 0)) and b_s <= 1 and b_e <= 2 and b_p <= 1 and c_s == 0 and c_e == 1 and (flags == 0 or (a_s == 0 and b_s == 0)) and (paths == 0 or (a_s <= 1 and a_e <= 1 and b_e <= 1))  and (link == 0 or (a_e == 0 and b_e == 0 and a_s == 0))'
 _T = _B + ' and c_s <= 1 and c_e <= 2'
 
 
 def _v(**kw):
-    v = dict(a_s=0, a_e=0, a_p=0, b_s=0, b_e=1, b_p=0, c_s=1, c_e=0, link=0, rev=False, flags=0, paths=0)
+    v = dict(a_s=0, a_e=0, a_p=0, b_s=0, b_e=1, b_p=0, c_s=1, c_e=0, link=0, rev=False, flags=0, paths=0, pydir=False)
     v.update(kw)
     return v
 
@@ -153,10 +162,10 @@ SPEC = {
         {'name': 'stale', 'fn': 'stale', 'params': _P, 'call': _C,
          'bounds': {'quick': _Q, 'thorough': _T},
          'slices': {'quick': ['a_p == %d and %s' % (p, r) for p in range(6) for r in ('rev', 'not rev')],
-                    'thorough': ['a_p == %d and b_p == %d and %s and flags == %d' % (p, q, r, f) for p in range(6) for q in range(6) for r in ('rev', 'not rev') for f in range(4)]},
+                    'thorough': ['a_p == %d and b_p == %d and %s and flags == %d' % (p, q, r, f) for p in range(6) for q in range(6) for r in ('rev', 'not rev') for f in range(6)]},
          'reach': 'stale_reach', 'reach_bounds': {'quick': _B + ' and flags == 0 and paths == 0 and link == 0 and a_p == 0 and b_p == 1',
                                                   'thorough': _B + ' and flags == 0 and paths == 0 and link == 0 and a_p == 0 and b_p == 1'},
          'timeout': {'quick': 300, 'thorough': 1700},
-         'fidelity': [_v(), _v(a_e=2, b_s=0, b_e=0, b_p=1, rev=True, paths=2), _v(link=1, a_p=2), _v(flags=2, a_e=0, b_e=0), _v(a_s=2, a_e=0, link=3, paths=3)]},
+         'fidelity': [_v(), _v(a_e=2, b_s=0, b_e=0, b_p=1, rev=True, paths=2), _v(link=1, a_p=2), _v(flags=2, a_e=0, b_e=0), _v(a_s=2, a_e=0, link=3, paths=3), _v(pydir=True, b_e=3), _v(flags=4, a_p=3), _v(flags=5, a_p=4)]},
     ],
 }
